@@ -32,3 +32,31 @@ TRUSTED = ["Coq 8.16.1 kernel (coqc; vm_compute for finite sweeps and witnesses)
            "extraction (ExtrOcamlBasic only) + ocaml/drv_tok.ml glue, whose strtod oracle is OCaml float_of_string",
            "harness/drv_tok.c, jvtext.h, xalloc.c; gcc -fsanitize=address,undefined",
            "libc strtod (oracle), strtoll/strtoull modelled exactly"]
+
+
+def mem_ok(need_bytes):
+    """can a driver process use need_bytes of address space / memory here?  (RLIMIT_AS, MemAvailable, cgroup limits)"""
+    try:
+        import resource, mmap
+        if resource.getrlimit(resource.RLIMIT_AS)[0] != resource.RLIM_INFINITY:
+            return False
+        if resource.getrlimit(resource.RLIMIT_DATA)[0] != resource.RLIM_INFINITY:
+            return False
+        avail = 0
+        for l in open("/proc/meminfo"):
+            if l.startswith("MemAvailable:"):
+                avail = int(l.split()[1]) * 1024
+        if avail < 2 * need_bytes + (2 << 30):
+            return False
+        for f in ("/sys/fs/cgroup/memory.max", "/sys/fs/cgroup/memory/memory.limit_in_bytes"):
+            try:
+                v = open(f).read().strip()
+                if v != "max" and int(v) < 2 * need_bytes + (2 << 30):
+                    return False
+            except (OSError, ValueError):
+                pass
+        m = mmap.mmap(-1, need_bytes, flags=mmap.MAP_PRIVATE | mmap.MAP_ANONYMOUS | getattr(mmap, "MAP_NORESERVE", 0))
+        m.close()
+        return True
+    except Exception:
+        return False
